@@ -463,13 +463,13 @@ theorem assign_spec (p : Prox) (hs : List Hinted) (next : Nat) (rows : List (Nat
                 · exact ⟨hd, fun _ _ => ⟨j, hn, by simpa using hj⟩⟩
                 · exact h3 x hx
             · rw [if_neg hj] at h; simp at h
-        · simp only [hlc, if_false] at h
+        · simp only [hlc] at h
           cases hr : p.assign hs next with
           | error e => rw [hr] at h; simp at h
           | ok rf =>
             obtain ⟨rows', flags'⟩ := rf
             rw [hr] at h
-            simp only [pure, Except.pure, Except.ok.injEq, Prod.mk.injEq] at h
+            simp only [pure, Except.pure] at h
             obtain ⟨rfl, rfl⟩ := h
             obtain ⟨h1, h2, h3⟩ := ih _ _ _ hr
             refine ⟨by simp [h1], by simp [mkRows, h2, hlc], ?_⟩
